@@ -287,12 +287,11 @@ class InlineTranslator:
 
         ### check if tuple set semantic does not allow for unique identification
         replace_terms = [stm.weight, stm.priority] + list(stm.terms)
-        if any(
-            map(
-                lambda x: potentially_unifying_sequence(x, replace_terms),
-                [t for t in self.minimize_tuples if t != replace_terms],
-            )
-        ):
+        # all other tuples: the tuple of this statement is skipped once, an identical tuple of another statement counts
+        other_tuples = list(self.minimize_tuples)
+        if replace_terms in other_tuples:
+            other_tuples.remove(replace_terms)
+        if any(map(lambda x: potentially_unifying_sequence(x, replace_terms), other_tuples)):
             log.info(f"Cannot inline agregate into {str(stm)} as the tuple is not unique.")
             return [stm]
 
